@@ -66,6 +66,12 @@ def check_spec(h: Harness, site: str, spec: Spec, b: Built, usable: bool = True,
         h.agree(site, ["analyse_error", line_spec], True)
         h.count("extract-error:" + kind)
         return None
+    unknown = [s_ for s_ in g.all_nodes if sym_of(b, s_) is None]
+    if unknown:
+        # a symbol that is neither one of the supplied classes (or their ancestors), nor a class a constructor parameter mentions
+        h.fail(site, "symbol-outside-the-grammar", f"the extracted grammar contains the symbols {sorted(map(str, unknown))}, which no constructor "
+               f"parameter of the supplied classes mentions: {sx(line_spec)}", sx(line_spec))
+        return g
     alts, dist = observe(b, g)
     rec = syms(b, g.recursive_prods)
     term = syms(b, g.terminals)
@@ -108,11 +114,60 @@ def check_spec(h: Harness, site: str, spec: Spec, b: Built, usable: bool = True,
             f"distanceToTerminal is not a solution of the minimum-depth equations for {sx(line_spec)}", sx(line_spec))
     if exact:   # (the enumeration oracle recurses once per depth level: not for the 150-level chains)
         check_exactness(h, site, spec, b, g)
+    check_recursion_exact(h, site, spec, b, g)
     h.count(f"classes={len(spec.classes)}")
     h.count("productive" if g.get_min_tree_depth() < 1000000 else "unproductive")
     if spec.expansion:
         h.count("expansion-mode")
     return g
+
+
+def mentioned_classes(t, out):
+    if isinstance(t, tuple):
+        if t[0] == "cls":
+            out.add(t[1])
+        elif t[0] == "ann":
+            mentioned_classes(t[1], out)
+        else:
+            for x in t[1:]:
+                mentioned_classes(x, out)
+    return out
+
+
+def check_recursion_exact(h: Harness, site: str, spec: Spec, b: Built, g):
+    """the symbols reported as recursive are exactly those that can derive a program containing themselves: an independent
+    walk over the derivation graph (abstract symbol -> its registered productions, production -> every class its field types mention,
+    through lists, tuples, unions and refinements).  Judged on grammars all of whose symbols are productive."""
+    if any(v >= 1000000 for v in g.distanceToTerminal.values()):
+        return
+    registered = {b.index[c] for c in g.all_nodes if c in b.index}
+    alts = {b.index[p]: [b.index[c] for c in cs] for p, cs in g.alternatives.items()}
+    succ = {}
+    for i in registered:
+        c = spec.classes[i]
+        if i in alts:
+            succ[i] = set(alts[i])
+        else:
+            out = set()
+            for _, ft in c.fields:
+                mentioned_classes(ft, out)
+            succ[i] = out & registered
+    reported = {b.index[c] for c in g.recursive_prods if c in b.index}
+    for i in sorted(registered):
+        seen, todo = set(), list(succ.get(i, ()))
+        while todo:
+            x = todo.pop()
+            if x not in seen:
+                seen.add(x)
+                todo += list(succ.get(x, ()))
+        truly = i in seen
+        h.seen(f"rec-exact:{gram.spec_sx_str(spec)}:{i}", nontrivial=truly)
+        if truly != (i in reported):
+            h.fail(site, "recursive-set-not-exact",
+                   f"class {spec.classes[i].name} {'can' if truly else 'cannot'} derive a program containing itself but is "
+                   f"{'' if i in reported else 'not '}reported as recursive (reported: {sorted(spec.classes[j].name for j in reported)})",
+                   [gram.spec_sx_str(spec), i])
+            break
 
 
 def oracle_min_depths(spec: Spec, alts: dict[int, list[int]], registered: set[int], allow_empty: bool, K: int):
@@ -185,6 +240,16 @@ def check_exactness(h: Harness, site: str, spec: Spec, b: Built, g):
                    f"({nonempty[i]} with non-empty lists)", replay)
 
 
+def dataclass_grammars(h: Harness):
+    """real dataclasses with attributes that are not constructor parameters (field(init=False) slots, ClassVars)"""
+    import dcgrammar
+    for considered, start in dcgrammar.GRAMMARS:
+        for expansion in (False, True):
+            spec, b = gram.reflect(considered, start, expansion)
+            h.count("dataclass-grammar-with-non-constructor-attributes")
+            check_spec(h, "extract_grammar[dataclasses]", spec, b)
+
+
 def shipped(h: Harness):
     import geml.grammars as pkg
     mods = []
@@ -227,6 +292,16 @@ CORPUS = [
 
 CORPUS.append(Spec([gram.ClassSpec("A0", True, None), gram.ClassSpec("C1", False, 0, [("f0", "int")], weight=2),
                     gram.ClassSpec("C2", False, 0, [("f0", ("cls", 0)), ("f1", ("list", ("cls", 0)))], weight=1)], 0, [1, 2], expansion=True))
+
+# recursive symbols that are stand-alone CONCRETE classes (no abstract parent), reached through field annotations only: through a
+# production's field, and through a size-refined list whose element refers to itself in a union
+CORPUS.append(Spec([gram.ClassSpec("A0", True, None), gram.ClassSpec("Lit", False, 0, [("k", "int")]), gram.ClassSpec("Swap", False, 0, [("p", ("cls", 3))]),
+                    gram.ClassSpec("Pair", False, None, [("l", ("cls", 0)), ("r", ("cls", 0))])], 0, [1, 2, 3]))
+CORPUS.append(Spec([gram.ClassSpec("A0", True, None), gram.ClassSpec("Lit", False, 0, []), gram.ClassSpec("Cell", False, None, [("rest", ("union", ("cls", 2), ("cls", 1)))]),
+                    gram.ClassSpec("Box", False, 0, [("cells", ("ann", ("list", ("cls", 2)), ("listSize", 1, 2)))])], 0, [1, 3, 2]))
+CORPUS.append(Spec([gram.ClassSpec("A0", True, None), gram.ClassSpec("Lit", False, 0, []), gram.ClassSpec("Swap", False, 0, [("p", ("cls", 3))]),
+                    gram.ClassSpec("Pair", False, None, [("l", ("cls", 0)), ("t", ("tuple", ("cls", 4), "bool"))]),
+                    gram.ClassSpec("Tag", False, None, [("n", ("ann", "int", ("intRange", 0, 2)))])], 0, [1, 2], expansion=True))
 
 
 def big_chains():
@@ -277,4 +352,5 @@ def run(h: Harness):
             h.count("weighted-spec" + ("-expansion" if exp else ""))
         b = gram.build(spec)
         check_spec(h, "extract_grammar", spec, b)
+    dataclass_grammars(h)
     shipped(h)
